@@ -51,10 +51,12 @@ fn render_led(items: &[Item], nl: &str, lead: bool) -> String {
         if lead && !matches!(it, Item::Marker(_)) {
             s.push_str(lead_text(k, items.len()));
         }
+        // between a directive and its macro name: white space (one or several blanks and tabs)
+        let sp = if lead && k % 2 == 1 { " \t  " } else { " " };
         match it {
-            Item::Define(m) => s.push_str(&format!("#define {m}")),
-            Item::Ifdef(m) => s.push_str(&format!("#ifdef {m}")),
-            Item::Ifndef(m) => s.push_str(&format!("#ifndef {m}")),
+            Item::Define(m) => s.push_str(&format!("#define{sp}{m}")),
+            Item::Ifdef(m) => s.push_str(&format!("#ifdef{sp}{m}")),
+            Item::Ifndef(m) => s.push_str(&format!("#ifndef{sp}{m}")),
             Item::Else => s.push_str("#else"),
             Item::Endif => s.push_str("#endif"),
             Item::Marker(i) => s.push_str(&format!("def m{i};")),
